@@ -214,7 +214,15 @@ func (c *controller) convergeBalancer(l log.Logger, key string, svc *v1.Service)
 	// is to program the data plane.
 	lbIngressIPs := []v1.LoadBalancerIngress{}
 	for _, lbIP := range lbIPs {
-		lbIngressIPs = append(lbIngressIPs, v1.LoadBalancerIngress{IP: lbIP.String()})
+		ingress := v1.LoadBalancerIngress{IP: lbIP.String()}
+		// Keep the ipMode recorded for this address (the API server defaults the field):
+		// dropping it would make every sync of a converged service a status change.
+		for _, cur := range svc.Status.LoadBalancer.Ingress {
+			if cur.IP == ingress.IP {
+				ingress.IPMode = cur.IPMode
+			}
+		}
+		lbIngressIPs = append(lbIngressIPs, ingress)
 	}
 	svc.Status.LoadBalancer.Ingress = lbIngressIPs
 	if svc.Annotations == nil {
